@@ -14,6 +14,10 @@ from .facts import walk
 M = 1 << 32
 
 
+# output routines whose only effect is on a stream / the diagnostic sink
+DIAGNOSTIC_CALLS = ("fprintf", "printf", "fflush", "libast_dprintf", "libast_print_error", "libast_print_warning", "time")
+
+
 class Unsupported(Exception):
     pass
 
@@ -675,6 +679,11 @@ class Evaluator:
                         return const(0)
                     raise Unsupported("helper %s returns no value" % g.name)
                 return env2["$ret"]
+            if (X.callee_name(n) or "") in DIAGNOSTIC_CALLS:
+                # a diagnostic print (the expansion of a REQUIRE / D_ macro): it writes to a stream and touches none of the
+                # function's variables; its value is an opaque symbol, so a result that used it could not equal the reference
+                self.diag_calls = getattr(self, "diag_calls", 0) + 1
+                return sym("$diag%d" % n["i"])
         raise Unsupported("expression kind %s (%s)" % (k, X.render(n)[:40]))
 
     def signed_fix(self, v, n):
